@@ -193,6 +193,8 @@ def cases(tier, rng):
                     if m > 13 and n not in (0, 1, 255):
                         continue
                     yield case_line('d8.nthwd', y, m, w, n)
+                    if (w + n) % 3 == 0:
+                        yield case_line('d8.pnthwd', y, m, w, n)
 
     # ---- whole years elapsed
     bases = edge_days(2024)[::2] + edge_days(2023)[::4] + [[MIN_YEAR, 1], [MAX_YEAR, 365], [0, 60], [2000, 60]]
